@@ -113,6 +113,10 @@ namespace Givaro
             F.assign(const_cast<Element&>(zero), F.zero);
             F.assign(const_cast<Element&>(mOne), F.mOne);
             _p = F._p;
+            _p1 = F._p1;
+            _r = F._r;
+            _r2 = F._r2;
+            _r3 = F._r3;
             return *this;
         }
 
